@@ -621,7 +621,7 @@ interpolate(const struct match *mh, const struct macro_list *macros,
 		if (n > 0) {
 			const struct macro *mc;
 
-			mc = macros_find(macros, macro);
+			mc = macros != NULL ? macros_find(macros, macro) : NULL;
 			free(macro);
 			if (mc == NULL)
 				goto mcerr;
